@@ -10,6 +10,7 @@ the session stays up, nothing is sent, and a later API announce is acknowledged 
 
 from __future__ import annotations
 
+import json
 import random
 import re
 import socket
@@ -202,7 +203,9 @@ def all_cases(tier, seed):
 
 
 def plan(tier, seed):
-    return [{'shard': i, 'nshards': 16} for i in range(16)]
+    out = [{'shard': i, 'nshards': 16} for i in range(16)]
+    out += [{'shard': 900 + i, 'daemon': True, 'part': i, 'cases': 3 if tier == 'quick' else 12} for i in range(4 if tier == 'quick' else 8)]
+    return out
 
 
 def canon(p):
@@ -422,7 +425,134 @@ def judge_failure(res, case, rec):
         res.ok('failpoint-position:' + str(min(9, 10 * case['failpoint'] // max(1, res.extra.get('failpoint_statements_in_clean_reload', [1])[0]))))
 
 
+def daemon_conf(routes):
+    from vlib import exa
+
+    return 'process player {\n    run @PY@ @DIR@/player.py @DIR@/script @DIR@/replies;\n    encoder json;\n}\n' + exa.neighbor_text(
+        hold=90,
+        families=[(1, 1)],
+        body='    static {\n' + ''.join(f'        route {p} next-hop {nh} med {m};\n' for p, nh, m in routes) + '    }\n',
+        extra='    adj-rib-out true;\n    group-updates false;\n    api { processes [ player ]; }',
+    )
+
+
+def run_daemon(desc):
+    """the REAL daemon: the file is rewritten and SIGUSR1 sent to the process (the signal handler and the main loop decide the
+    rest); what a scripted peer holds afterwards is the new file's routes plus the routes a real helper announced.  A broken
+    file leaves the table as it was, the session up and the helper answered; a valid file after it is applied"""
+    import signal
+    import time
+
+    from vlib import daemon
+
+    res = Result()
+    r = random.Random(desc['seed'] * 86028121 + desc['part'])
+    kinds = ['remove', 'add', 'attr-changed', 'nexthop-changed', 'mixed', 'same']
+    for ci in range(desc['cases']):
+        kind = kinds[(ci + desc['part'] * 2 + desc['seed']) % len(kinds)]
+        old, new, _ = change(r, kind)
+        broken_first = (ci + desc['part']) % 2 == 1
+        api_routes = [('172.16.1.0/24', '192.0.2.2', 9), ('172.16.2.0/24', '192.0.2.2', 8)]
+        probe = ('172.16.9.0/24', '192.0.2.2', 5)
+        script = '#sleep 1.0\n' + ''.join(f'peer * announce route {p} next-hop {nh} med {m}\n' for p, nh, m in api_routes) + '#wait go\n' + 'peer * announce route %s next-hop %s med %d\n' % probe
+        new_text = daemon_conf(new)
+        cls = f'daemon:{kind}' + (':after-a-broken-file' if broken_first else '')
+        d = daemon.Daemon(daemon_conf(old), files={'script': script})
+        wit = {'kind': kind, 'old': old, 'new': new, 'broken_first': broken_first, 'level': 'daemon'}
+        rx = []
+        try:
+            d.start()
+            peer = d.accept()
+            peer.establish(65001, hold=90)
+            d.wait_lines('replies', lambda ls: any(x.startswith('["wait"') for x in ls), timeout=60)
+            rx += peer.drain(quiet=0.8, limit=20)
+            t0 = table_of(rx)
+            want0 = {canon(p): (nh, m) for p, nh, m in old + api_routes}
+            if t0 != want0:
+                res.inconclusive.append(f'daemon: the table before the reload is not the old file plus the API routes: {sorted(t0.items())[:3]} vs {sorted(want0.items())[:3]}')
+                continue
+            if broken_first:
+                variants = broken_variants(new_text)
+                bk, bline, btext = variants[r.randrange(len(variants))]
+                wit['broken'] = [bk, bline]
+                d.rewrite_conf(btext)
+                d.signal(signal.SIGUSR1)
+                got = peer.drain(quiet=1.5, limit=20)
+                rx += got
+                if any(t in (3, None) for t, _ in got):
+                    res.violation(f'C17/daemon:session-lost-by-a-refused-file:{bk}', f'the session ended after SIGUSR1 with a broken file ({bk} at line {bline})', dict(wit, log=d.tail(500)), cls)
+                    continue
+                if table_of(rx) != t0:
+                    res.violation(f'C17/daemon:refused-file-changed-the-peer-table:{bk}', f'after SIGUSR1 with a broken file ({bk} at line {bline}) the peer table changed', dict(wit, before=sorted(t0.items()), after=sorted(table_of(rx).items())), cls)
+                    continue
+                if not d.alive():
+                    res.violation(f'C17/daemon:exited-on-a-refused-file:{bk}', 'the daemon exited after SIGUSR1 with a broken file', dict(wit, log=d.tail(500)), cls)
+                    continue
+                res.ok('daemon:fault:' + bk)
+            d.rewrite_conf(new_text)
+            d.signal(signal.SIGUSR1)
+            rx += peer.drain(quiet=1.5, limit=20)
+            d.release('go')
+            d.wait_lines('replies', lambda ls: any(x.startswith('["end"') for x in ls), timeout=60)
+            rx += peer.drain(quiet=1.0, limit=20)
+            replies = [json.loads(x) for x in d.lines('replies')]
+        except daemon.Inconclusive as e:
+            res.inconclusive.append('daemon: ' + str(e)[:400])
+            continue
+        except rw.RefError as e:
+            res.violation('C17/undecodable-update', str(e), wit, cls)
+            continue
+        finally:
+            try:
+                peer.close()
+            except Exception:  # noqa
+                pass
+            d.stop()
+        if any(t in (3, None) for t, _ in rx):
+            res.violation('C17/daemon:session-lost-by-a-reload', 'the session ended after SIGUSR1 with a file which changes routes only', dict(wit), cls)
+            continue
+        answered = [x for x in replies if x[0] == 'got' and 'done' in x[1]]
+        if len(answered) != len(api_routes) + 1 or any(x[0] == 'timeout' for x in replies):
+            res.violation('C17/daemon:api-not-answered-after-reload', f'{len(api_routes) + 1} commands, {len(answered)} acknowledged', dict(wit, replies=replies), cls)
+            continue
+        try:
+            got = table_of(rx)
+        except rw.RefError as e:
+            res.violation('C17/undecodable-update', str(e), wit, cls)
+            continue
+        want = {canon(p): (nh, m) for p, nh, m in new + api_routes + [probe]}
+        if got != want:
+            missing = sorted(set(want) - set(got))
+            extra = sorted(set(got) - set(want))
+            differ = sorted(k for k in set(got) & set(want) if got[k] != want[k])
+            key = 'route-missing-after-reload' if missing else 'route-not-withdrawn' if extra else 'route-stale-values'
+            res.violation(f'C17/daemon:{key}:{kind}', f'after SIGUSR1 the peer holds missing={missing[:3]} extra={extra[:3]} differ={[(k, got[k], want[k]) for k in differ[:2]]}', dict(wit, peer=sorted(got.items()), expected=sorted(want.items())), cls)
+        else:
+            res.ok(cls, (cls,))
+            res.ok('daemon:reload')
+    return res
+
+
+def table_of(rx):
+    table = rw.PeerTable()
+    s = rw.sess(asn4=True, addpath=())
+    for t, body in rx:
+        if t != rw.UPDATE:
+            continue
+        d = rw.dec_update(bytes(body), s)
+        if d['eor']:
+            continue
+        table.apply(d)
+    out = {}
+    for key, v in table.routes.items():
+        med = dict(v['attrs']).get(rw.MED)
+        out[key[5]] = (v['nexthop'][0] if v['nexthop'] else None, int(med) if med is not None else None)
+    return out
+
+
 def run_shard(desc):
+    if desc.get('daemon'):
+        return run_daemon(desc)
     res = Result()
     cases = all_cases(desc['tier'], desc['seed'])
     mine = [c for i, c in enumerate(cases) if i % desc['nshards'] == desc['shard']]
@@ -461,6 +591,6 @@ def run_shard(desc):
 
 
 REQUIRED_CLASSES = {
-    'quick': ['change:remove', 'change:add', 'change:same', 'change:param+remove', 'adj-rib-out:false', 'state:up', 'state:down', 'fault-kind:line', 'fault-kind:file-removed', 'fault-kind:failpoint'],
+    'quick': ['change:remove', 'change:add', 'change:same', 'change:param+remove', 'adj-rib-out:false', 'state:up', 'state:down', 'fault-kind:line', 'fault-kind:file-removed', 'fault-kind:failpoint', 'daemon:reload'],
 }
 REQUIRED_CLASSES['thorough'] = REQUIRED_CLASSES['quick']
